@@ -222,20 +222,22 @@ struct Runner {
     if ((double)circ_dist((LD)A[0] + A[2], 0, A0) > 2 * u) bad("reverse-not-complement", A[0], A[2]);
     c.obs(std::string("reverse/sign relations: max deviation [ulp(area0)] ") + fn, std::max(std::max((double)circ_dist(A[0], A[1], A0), (double)circ_dist(A[2], A[3], A0)), boundary ? 0.0 : std::fabs(A[1] + A[3])) / ref::ulp_d(A0));
   }
-  void judge_area(const char* what, double got, LD Accw, bool r, bool s, LD tolA, int nvert, bool extra_tie = false) {
+  void judge_area(const char* what, double got, LD Accw, bool r, bool s, LD tolA, int nvert, bool extra_tie = false, bool extra_preq = false) {
     LD ex = expect_area(env, Accw, r, s);
     double err = (double)circ_dist((LD)got, ex, env.area0), T = env.K * (double)tolA + 2 * ref::ulp_d(env.area0_lib);
     if (err <= T) c.obs(std::string("area error / tolerance [") + bn + "] " + what, err / T, wit().f("got", got).f("expected", (double)ex).f("err_m2", err).f("tol_m2", T));
     if (err <= T && env.bucket == "wgs84-like" && env.a == gh::WGS84_A) c.obs(std::string("WGS84: area error per vertex [m^2] ") + bn + " " + what, err / std::max(1, nvert));
     std::string sub;
-    if (!(err <= T) && std::fabs(err - 0.5 * env.area0_lib) <= T) sub = (M.ntie || extra_tie || (!std::string(what).compare("polygon") && close_edge.tie)) ? "/off-by-half-ellipsoid-area/edge-between-opposite-meridians" : "/off-by-half-ellipsoid-area";
+    if (M.npreq || extra_preq || (!std::string(what).compare("polygon") && close_edge.preq)) sub = "/strongly-prolate-near-equatorial-inverse-edge";
+    else if (!(err <= T) && std::fabs(err - 0.5 * env.area0_lib) <= T) sub = (M.ntie || extra_tie || (!std::string(what).compare("polygon") && close_edge.tie)) ? "/off-by-half-ellipsoid-area/edge-between-opposite-meridians" : "/off-by-half-ellipsoid-area";
     if (!(err <= T)) viol(k("oracle", (std::string(what) + "-area" + sub).c_str()), wit().b("reverse", r).b("sign", s).f("got", got).f("expected", (double)ex).f("err_m2", err).f("tol_m2", T).f("area0", (double)env.area0));
   }
-  void judge_per(const char* what, double got, LD len, LD tolP, bool extra_preq = false) {
+  void judge_per(const char* what, double got, LD len, LD tolP, bool extra_preq = false, bool extra_rheq = false) {
     double err = (double)fabsl((LD)got - len), T = env.K * (double)tolP + 4 * ref::ulp_d((double)len);
     if (err <= T) c.obs(std::string("perimeter error / tolerance [") + bn + "] " + what, err / T, wit().f("got", got).f("expected", (double)len).f("err_m", err).f("tol_m", T));
     if (err <= T && env.bucket == "wgs84-like" && env.a == gh::WGS84_A) c.obs(std::string("WGS84: perimeter error [nm] ") + bn + " " + what, err * 1e9);
-    std::string sub = (M.nrheq || close_edge.rheq) ? "/prolate-exact-rhumb-near-equator-edge" : (M.npreq || close_edge.preq || extra_preq) ? "/strongly-prolate-near-equatorial-inverse-edge" : "";
+    bool poly = !std::string(what).compare("polygon");
+    std::string sub = (M.nrheq || extra_rheq || (poly && close_edge.rheq)) ? "/prolate-exact-rhumb-near-equator-edge" : (M.npreq || extra_preq || (poly && close_edge.preq)) ? "/strongly-prolate-near-equatorial-inverse-edge" : "";
     if (!(err <= T)) viol(k("oracle", (std::string(what) + "-perimeter" + sub).c_str()), wit().f("got", got).f("expected", (double)len).f("err_m", err).f("tol_m", T));
   }
 
@@ -292,11 +294,11 @@ struct Runner {
     if (ref_too && M.judged && !M.V.empty() && std::isfinite(A) ) {
       RV T{lat, lon}; EdgeOut e1 = between(M.V.back(), T, !polyline);
       if (e1.st != E_OK) return;
-      if (polyline) { judge_per("TestPoint-polyline", per, M.len + e1.len, M.tolP + (LD)env.tol_pos * e1.lenscale + e1.extra_tol); return; }
+      if (polyline) { judge_per("TestPoint-polyline", per, M.len + e1.len, M.tolP + (LD)env.tol_pos * e1.lenscale + e1.extra_tol, e1.preq, e1.rheq); return; }
       EdgeOut e2 = between(T, M.V[0], true); if (e2.st != E_OK) return;
       LD frac, Accw = closed_area(env, M.I + e1.I + e2.I, M.dlam + e1.dlam + e2.dlam, &frac); if (frac > (LD)1e-9) return;
       LD tP = M.tolP + (LD)env.tol_pos * (e1.lenscale + e2.lenscale) + e1.extra_tol + e2.extra_tol, tA = M.tolA + (((LD)env.tol_pos * e1.lenscale + e1.extra_tol) * e1.cond + ((LD)env.tol_pos * e2.lenscale + e2.extra_tol) * e2.cond) * env.cauth;
-      judge_area("TestPoint", A, Accw, r, s, tA, (int)M.V.size() + 1, e1.tie || e2.tie); judge_per("TestPoint", per, M.len + e1.len + e2.len, tP, e1.preq || e2.preq);
+      judge_area("TestPoint", A, Accw, r, s, tA, (int)M.V.size() + 1, e1.tie || e2.tie, e1.preq || e2.preq); judge_per("TestPoint", per, M.len + e1.len + e2.len, tP, e1.preq || e2.preq, e1.rheq || e2.rheq);
       c.event("judged: TestPoint against the reference");
     }
   }
